@@ -17,3 +17,43 @@ Definition spn_mapped (q_mapped_empty : bool) (spans : list span) (eoi : nat) (p
                 end)
   | None => (eoi, eoi)
   end.
+
+(* ---------- &str: byte-offset cursors over UTF-8 (input.rs:315-360) ---------- *)
+(* width of a scalar value in UTF-8 *)
+Definition utf8_width (t : tok) : nat :=
+  if N.ltb t 128 then 1 else if N.ltb t 2048 then 2 else if N.ltb t 65536 then 3 else 4.
+
+(* byte offset of the i-th character *)
+Fixpoint str_off (l : list tok) (i : nat) : nat :=
+  match i, l with
+  | S j, t :: r => utf8_width t + str_off r j
+  | _, _ => 0
+  end.
+Definition str_len (l : list tok) : nat := str_off l (length l).
+
+(* Input::next_maybe for &str: `if cursor < len { decode the char starting at byte cursor }`.
+   Decoding is only defined on a character boundary (the code uses get_unchecked): None = undefined *)
+Fixpoint str_decode (l : list tok) (c : nat) : option (option (tok * nat)) :=
+  match l with
+  | [] => match c with 0 => Some None | _ => None end          (* cursor = len: end of input *)
+  | t :: r =>
+      match c with
+      | 0 => Some (Some (t, utf8_width t))
+      | _ => if Nat.ltb c (utf8_width t) then None               (* inside a character: undefined *)
+             else match str_decode r (c - utf8_width t) with
+                  | Some (Some (u, c')) => Some (Some (u, utf8_width t + c'))
+                  | x => x
+                  end
+      end
+  end.
+
+(* ---------- Stream: tokens pulled from an iterator in batches and cached (stream.rs:110-128) ---------- *)
+Record stream := mkStream { s_cache : list tok; s_rest : list tok; s_pulled : nat }.
+Definition stream_init (l : list tok) : stream := mkStream [] l 0.
+(* ValueInput::next: `if tokens.len() <= cursor { tokens.extend(iter.take(B)) }; tokens.get(cursor)` *)
+Definition stream_next (B : nat) (s : stream) (c : nat) : option tok * stream :=
+  let s' := if Nat.leb (length (s_cache s)) c
+            then mkStream (s_cache s ++ firstn B (s_rest s)) (skipn B (s_rest s))
+                          (s_pulled s + length (firstn B (s_rest s)))
+            else s in
+  (nth_error (s_cache s') c, s').
